@@ -195,8 +195,8 @@ pub fn child(args: &[String]) -> i32 {
 
 pub fn run(ctx: &Ctx) -> i32 {
     let col = Collector::new();
-    let nproc = ctx.tier.pick(4u64, 8u64);
-    let nseeds = ctx.tier.pick(16u64, 96u64);
+    let nproc = ctx.tier.pick(4u64, 16u64);
+    let nseeds = ctx.tier.pick(16u64, 256u64);
     sweep(&col, nproc, nseeds);
     finish(
         ctx,
